@@ -12,6 +12,7 @@ package xqfe
 
 import (
 	"fmt"
+	"os"
 	"sort"
 	"testing"
 	"time"
@@ -196,6 +197,9 @@ func TestVerifC41(t *testing.T) {
 		{start: 50000, end: 1000000, step: 90000, interval: msMinute, query: "up"},
 		{start: 3599000, end: 3 * msHour, step: 1000, interval: msHour, query: "up"},
 	} {
+		if os.Getenv("VERIF_NOTABLE") != "" { // sensitivity experiments: let the generator find it
+			break
+		}
 		subs, err := runSplitRange(c)
 		if err != nil {
 			rec.Violation(t, "regression input %s: middleware error %v", c, err)
